@@ -2,6 +2,7 @@ package vc
 
 import (
 	"fmt"
+	"os"
 	"go/types"
 	"strconv"
 	"strings"
@@ -12,16 +13,24 @@ import (
 // Reification: from a solver model of the entry state to Go literals for the
 // parameters of the function under verification.
 
+const maxReifyDepth = 5 // pointer / slice hops followed from a parameter
+
 const ReifyBound = 12 // slices/strings are bounded to this length when searching for a replayable model
 
 type reifier struct {
 	vc    *VC
 	terms []ModelTerm
 	seen  map[string]bool
+	depth int
+	queue []func()
 }
 
+func reifyDepth(r *reifier) int { return r.depth }
+
+const maxReifyTerms = 2500
+
 func (r *reifier) add(path, term string) {
-	if r.seen[path] {
+	if r.seen[path] || len(r.terms) > maxReifyTerms {
 		return
 	}
 	r.seen[path] = true
@@ -29,18 +38,34 @@ func (r *reifier) add(path, term string) {
 }
 
 // ReifyPlan returns the model terms to evaluate and extra bounding assertions.
+// The object graph below the parameters is explored breadth first (each
+// pointer, slice-element or dynamic-type hop is queued), so that a term budget
+// cuts the deepest objects, not the later fields of shallow ones.
 func (vc *VC) ReifyPlan() (terms []ModelTerm, bounds []string) {
-	r := &reifier{vc: vc, seen: map[string]bool{}}
+	r := &reifier{vc: vc, seen: map[string]bool{}, depth: maxReifyDepth}
 	for _, name := range vc.ParamOrder {
 		v := vc.Params[name]
 		r.value(v.T, v.Typ, name, 0, &bounds)
 	}
+	for len(r.queue) > 0 && len(r.terms) <= maxReifyTerms {
+		next := r.queue[0]
+		r.queue = r.queue[1:]
+		next()
+	}
+	if os.Getenv("GOVC_DEBUG_REPLAY") != "" {
+		fmt.Fprintf(os.Stderr, "reify plan: %d terms, %d bounds, %d objects not explored\n", len(r.terms), len(bounds), len(r.queue))
+	}
 	return r.terms, bounds
+}
+
+// hop defers the exploration of an object one hop away.
+func (r *reifier) hop(loc string, t types.Type, path string, depth int, bounds *[]string) {
+	r.queue = append(r.queue, func() { r.loc(loc, t, path, depth, bounds) })
 }
 
 func (r *reifier) value(term string, t types.Type, path string, depth int, bounds *[]string) {
 	vc := r.vc
-	if depth > 3 {
+	if depth > reifyDepth(r) || len(r.terms) > maxReifyTerms {
 		return
 	}
 	switch u := t.Underlying().(type) {
@@ -70,7 +95,7 @@ func (r *reifier) value(term string, t types.Type, path string, depth int, bound
 			n = 3
 		}
 		for i := 0; i < n; i++ {
-			r.loc(App("at_", term, fmt.Sprint(i)), u.Elem(), fmt.Sprintf("%s[%d]", path, i), depth+1, bounds)
+			r.hop(App("at_", term, fmt.Sprint(i)), u.Elem(), fmt.Sprintf("%s[%d]", path, i), depth+1, bounds)
 		}
 	case *types.Struct:
 		sn := vc.sorts.SortOf(t)
@@ -80,9 +105,55 @@ func (r *reifier) value(term string, t types.Type, path string, depth int, bound
 	case *types.Pointer:
 		r.add(path+".nil", Eq(term, "Null"))
 		if _, isStruct := u.Elem().Underlying().(*types.Struct); isStruct || isBasicScalar(u.Elem()) {
-			r.loc(term, u.Elem(), "(*"+path+")", depth+1, bounds)
+			r.hop(term, u.Elem(), "(*"+path+")", depth+1, bounds)
+		}
+	case *types.Interface:
+		// dynamic type: nil or one of the pointer-to-struct types the VC knows
+		// that implement the interface
+		r.add(path+".tag", App("if.tag", term))
+		alts := []string{Eq(App("if.tag", term), "0")}
+		for _, id := range ifaceCandidates(vc.sorts, u) {
+			pt := vc.sorts.tagTypes[id].Underlying().(*types.Pointer)
+			alt := []string{Eq(App("if.tag", term), fmt.Sprint(id)), Not(Eq(App("if.ptr", term), "Null"))}
+			// search heuristic: a dynamic value that merely wraps pointers (a
+			// protobuf oneof wrapper) wraps non-nil ones, as every decoder builds it
+			if st := pt.Elem().Underlying().(*types.Struct); st.NumFields() <= 2 {
+				for i := 0; i < st.NumFields(); i++ {
+					if _, isP := st.Field(i).Type().Underlying().(*types.Pointer); isP {
+						if h, ok := vc.Entry.H["Loc"]; ok {
+							alt = append(alt, Not(Eq(App("select", h, App("Fld", App("if.ptr", term), fmt.Sprint(vc.sorts.FieldID(pt.Elem(), i)))), "Null")))
+						}
+					}
+				}
+			}
+			alts = append(alts, And(alt...))
+			r.hop(App("if.ptr", term), pt.Elem(), fmt.Sprintf("%s.(T%d)", path, id), depth, bounds)
+		}
+		*bounds = append(*bounds, Or(alts...))
+	}
+}
+
+// ifaceCandidates lists the registered type tags of pointer-to-struct types
+// implementing iface, in increasing order.
+func ifaceCandidates(s *Sorts, iface *types.Interface) []int {
+	var ids []int
+	for id := 1; id <= len(s.tagTypes); id++ {
+		t := s.tagTypes[id]
+		if t == nil {
+			continue
+		}
+		p, ok := t.Underlying().(*types.Pointer)
+		if !ok {
+			continue
+		}
+		if _, isStruct := p.Elem().Underlying().(*types.Struct); !isStruct {
+			continue
+		}
+		if types.Implements(t, iface) {
+			ids = append(ids, id)
 		}
 	}
+	return ids
 }
 
 func isBasicScalar(t types.Type) bool {
@@ -92,7 +163,7 @@ func isBasicScalar(t types.Type) bool {
 
 func (r *reifier) loc(loc string, t types.Type, path string, depth int, bounds *[]string) {
 	vc := r.vc
-	if depth > 3 {
+	if depth > reifyDepth(r) || len(r.terms) > maxReifyTerms {
 		return
 	}
 	if st, ok := t.Underlying().(*types.Struct); ok {
@@ -147,6 +218,15 @@ func (m Model) bool(path string) bool { return strings.TrimSpace(m[path]) == "tr
 // GoLiteral renders the value of type t described by the model under path.
 // qual qualifies type names relative to the package under test.
 func GoLiteral(m Model, t types.Type, path string, qual types.Qualifier, depth int) string {
+	return goLiteral(nil, m, t, path, qual, depth)
+}
+
+// GoLiteral with access to the VC's type tags (interface-typed values).
+func (vc *VC) GoLiteral(m Model, t types.Type, path string, qual types.Qualifier, depth int) string {
+	return goLiteral(vc.sorts, m, t, path, qual, depth)
+}
+
+func goLiteral(srt *Sorts, m Model, t types.Type, path string, qual types.Qualifier, depth int) string {
 	ts := types.TypeString(t, qual)
 	switch u := t.Underlying().(type) {
 	case *types.Basic:
@@ -173,7 +253,7 @@ func GoLiteral(m Model, t types.Type, path string, qual types.Qualifier, depth i
 		}
 		return fmt.Sprintf("*new(%s)", ts)
 	case *types.Slice:
-		if m.bool(path+".nil") || depth > 3 {
+		if m.bool(path+".nil") || depth > maxReifyDepth+1 {
 			return fmt.Sprintf("%s(nil)", ts)
 		}
 		n, _ := m.int(path + ".len")
@@ -186,7 +266,7 @@ func GoLiteral(m Model, t types.Type, path string, qual types.Qualifier, depth i
 		}
 		var es []string
 		for i := int64(0); i < n; i++ {
-			es = append(es, GoLiteral(m, u.Elem(), fmt.Sprintf("%s[%d]", path, i), qual, depth+1))
+			es = append(es, goLiteral(srt, m, u.Elem(), fmt.Sprintf("%s[%d]", path, i), qual, depth+1))
 		}
 		if c, ok := m.int(path + ".cap"); ok && c > n && c <= 64 {
 			// honour a capacity larger than the length (code may reslice up to cap)
@@ -200,14 +280,31 @@ func GoLiteral(m Model, t types.Type, path string, qual types.Qualifier, depth i
 			if !hasModelUnder(m, path+"."+f.Name()) {
 				continue
 			}
-			fs = append(fs, fmt.Sprintf("%s: %s", f.Name(), GoLiteral(m, f.Type(), path+"."+f.Name(), qual, depth)))
+			if !f.Exported() && f.Pkg() != nil && qual != nil && qual(f.Pkg()) != "" {
+				continue // unexported field of another package's struct
+			}
+			fs = append(fs, fmt.Sprintf("%s: %s", f.Name(), goLiteral(srt, m, f.Type(), path+"."+f.Name(), qual, depth)))
 		}
 		return fmt.Sprintf("%s{%s}", ts, strings.Join(fs, ", "))
+	case *types.Interface:
+		tag, ok := m.int(path + ".tag")
+		if !ok || tag == 0 || srt == nil || depth > maxReifyDepth+1 {
+			return "nil"
+		}
+		dt := srt.tagTypes[int(tag)]
+		if dt == nil {
+			return "nil"
+		}
+		pt, isPtr := dt.Underlying().(*types.Pointer)
+		if !isPtr {
+			return "nil"
+		}
+		return "&" + goLiteral(srt, m, pt.Elem(), fmt.Sprintf("%s.(T%d)", path, tag), qual, depth)
 	case *types.Pointer:
-		if m.bool(path+".nil") || depth > 3 {
+		if _, known := m[path+".nil"]; !known || m.bool(path+".nil") || depth > maxReifyDepth+1 {
 			return fmt.Sprintf("(%s)(nil)", ts)
 		}
-		inner := GoLiteral(m, u.Elem(), "(*"+path+")", qual, depth+1)
+		inner := goLiteral(srt, m, u.Elem(), "(*"+path+")", qual, depth+1)
 		if _, isStruct := u.Elem().Underlying().(*types.Struct); isStruct {
 			return "&" + inner
 		}
